@@ -73,6 +73,47 @@ CLAIMS.update({
                 "are NOT covered.",
     },
 })
+CLAIMS.update({
+    "C07": {
+        "text": "Region queries and translation against the point-set model: contains_point (+ find_box_for_y) == membership and returns a "
+                "member rectangle, contains_rectangle IN/OUT/PART by closed-form intervals and ghost points, not_empty/n_rects/extents/"
+                "rectangles, translate (in-range branch: every rectangle shifted exactly; 16-bit clamp/discard branches; every (dx,dy)); "
+                "proof level for empty/single-rectangle regions over the full coordinate domain in both instantiations.",
+        "note": "Bounded: 2..4 rectangles (3 for translate), exact PART classification on coordinates in [-8,8], init_from_image only width "
+                "<=3 x height 1 (effectively unverified beyond that). No unbounded loop contracts. 5 genuine defects of translate are known "
+                "findings (int overflow before widening in the 32-bit instantiation, empty rectangle kept at the range border, all-discarded "
+                "case reads box[-1], bands left unmerged).",
+    },
+    "C10": {
+        "text": "For all 38 MAKE_ACCESSORS formats, against a literal per-format field table: fetch_pixel == bit-replicated widening of the raw "
+                "bits for every memory content and x (loop-free proof; indexed formats for every palette), store keeps the most significant "
+                "bits and changes no bit outside the addressed pixels (ghost bit anywhere in the image memory), read/write round trips, "
+                "scanline reader == single-pixel reader, the accessor build goes through the callbacks only and behaves identically, "
+                "setup_accessors installs exactly the table row of the format, unorm/float converters round-trip and clamp.",
+        "note": "Scanline loops are unrolled (width <=4 quick / 8 thorough): bounded. Indexed store side only against a fixed palette. "
+                "yuy2, yv12, sRGB: only 'scanline reader == single-pixel reader' (relational, bounded); 10-bpc and float formats, dithering, "
+                "big-endian layout: not covered.",
+    },
+    "C15": {
+        "text": "Allocation failure is an explicit 32-bit input (bit k fails the k-th allocation of the call; cbmc --no-malloc-may-fail, "
+                "--memory-leak-check): region copy/init_rects leave the designated broken region, return FALSE and leak nothing; a broken "
+                "operand propagates through union/intersect/inverse/subtract/copy/union_rect and fini accepts it; plus every image-setter, "
+                "glyph-cache and filter job of C20/C14/C17/C18 that runs under a symbolic failure mask.",
+        "note": "Only the functions named in the evidence are checked under failure; pixman_op/validate bail paths and the silent-skip sites "
+                "(general_composite_rect buffer, glyph mask, trapezoid temporary image) are NOT covered. Known finding: subtract with a broken "
+                "minuend returns TRUE.",
+    },
+    "C19": {
+        "text": "fill: pixman_fill1/8/16/32 and sse2_fill set exactly the rectangle (ghost slot anywhere in the stride incl. padding and "
+                "neighbouring bits), unsupported depth => FALSE and nothing written (proof); blt/fill delegation down the implementation "
+                "chain; color_to_pixel == store of the colour for the 12 accepted formats and FALSE otherwise (proof, all colours); "
+                "fill_boxes/fill_rectangles: operator reduction, route selection, and the rectangles handed to pixman_fill are exactly "
+                "boxes ∩ clip ∩ image bounds. Three defects found here were repaired by fix: commits (no clipping to the image, direct "
+                "fill with alpha map/accessors, UB shift in color_to_uint32).",
+        "note": "Fill/blt row and line loops are unrolled (width <= 5..96 pixels, height <= 3): bounded; SSE2 with store/load intrinsics "
+                "modelled as 16-byte accesses with an alignment obligation (trusted); MMX not modelled; fill_boxes with <=1 box and <=1 clip "
+                "rectangle against a one-rectangle region model (trusted, justified by C05).",
+    },
+})
 _NOT_BUILT = "check not built yet in this session (planned in DESIGN.md §5); not claimed until bin/check passes on the unchanged tree"
-NOT_APPLICABLE = {p: _NOT_BUILT for p in ["C02", "C03", "C04", "C07", "C08", "C10", "C12", "C13", "C14",
-                                           "C15", "C18", "C19", "C20"]}
+NOT_APPLICABLE = {p: _NOT_BUILT for p in ["C02", "C03", "C04", "C08", "C12", "C13", "C14", "C18", "C20"]}
